@@ -130,7 +130,8 @@ Theorem C05_nodeid_unique_disjoint : forall ops,
 Proof. exact nodeid_unique_all_disjoint. Qed.
 Print Assumptions C05_nodeid_unique_disjoint.
 
-(* ---- merge_nodes keeps every link of both nodes and applies the policy ---- *)
+(* ---- merge_nodes keeps every link of both nodes, leaves none of networkx's 'contraction' bookkeeping on
+   them (fix 7e2b502) and applies the policy ---- *)
 Theorem C05_merge_keeps_edges_and_policy : forall G g n g2 pol G',
   NoDup (ids G) -> s_merge G g n g2 pol = (G', Ok RUnit) ->
   exists u v mine other,
@@ -140,6 +141,7 @@ Theorem C05_merge_keeps_edges_and_policy : forall G g n g2 pol G',
     (forall i, i <> u -> i <> v -> nx_node G' i = nx_node G i) /\
     (forall y, y <> u -> y <> v -> pres G' u y = pres G u y || pres G v y) /\
     (forall a b, a <> u -> b <> u -> a <> v -> b <> v -> nx_edge G' a b = nx_edge G a b) /\
+    (forall y ps, nx_edge G' u y = Some ps -> aget k_contraction ps = None) /\
     exists np, nx_node G' u = Some np /\
       forall k, aget k np = match aget k mine with
                             | Some m => match pol with Some p => policy_spec p other k m | None => Some m end
